@@ -60,8 +60,8 @@ def reg(what, module):
 FOLLOW_DEVS = ["FollowUtf8Split"]
 
 
-def follow_consts(maxlen, caps, idle, free, dev):
-    return {"MaxLen": maxlen, "Caps": set(caps), "MaxIdle": idle, "FreeAppend": free, "Dev": {q(d) for d in dev}}
+def follow_consts(maxlen, caps, idle, free, dev, interrupt=False):
+    return {"MaxLen": maxlen, "Caps": set(caps), "MaxIdle": idle, "FreeAppend": free, "Dev": {q(d) for d in dev}, "WithInterrupt": interrupt}
 
 
 def check_C10(tier):
@@ -316,6 +316,13 @@ def check_C19(tier):
     engine_run(c, "interrupt", "CoreLimitMenu", lines="Lines3", maxlines=4 if t else 3, maxfiles=2, intrs="AllIntr", tdefs=("plain",))
     engine_run(c, "interrupt-join", "JoinMenu", lines="LinesJ", maxlines=2, maxfiles=1, joinsets="JoinSetsLong", intrs="JoinIntr", tdefs=("plain",))
     laws_trace(c, 2 if t else 1, 300 if t else 100)
+    # follow mode: ctrl-c while the reader waits (possibly holding an unterminated piece of a line); the next complete line is not consumed and the run ends
+    fr = tlc("MC_Follow", cfg_text(constants=follow_consts(4 if t else 3, [8], 0, False, [], interrupt=True), invariants=["TypeOK", "DeliveredPrefix", "Conservation", "Emit"],
+                                   properties=["InterruptFreezesDelivery"]), "follow-interrupt", workers=W, timeout=1500)
+    expect_holds(fr, "Follow with interrupts"); c.add_tlc(fr)
+    sp, n = sample_ndjson(fr.replay_path, 1500 if t else 250, "follow-interrupt", pred=lambda l: '"e":"I"' in l)
+    rep = vh_replay("follow-exec", sp, "follow-interrupt")
+    c.add_report(rep, reg("FollowFileExecutor vs Follow.tla (replay, child process)", "follow-exec"))
     # the process itself under a real SIGINT (main.rs: the ctrl-c handler): rows are a prefix, an aggregate shows the table of exactly the lines consumed
     trace_check(c, "sigint", "Trace_Sigint", 40 if t else 10, "sigint", "the sqlgrep process interrupted by SIGINT", constants={"Slack": 20000}, rounds=2 if t else 1,
                 env={"VH_CLI": vlib.build_cli()})
